@@ -70,18 +70,18 @@ func rk(p string, r hcl.Range) rkey {
 }
 
 type Agg struct {
-	Kind    string
-	N       int
-	Hist    map[string]int
-	Panics  map[string]Event // site|class -> first example
-	Ranges  map[rkey]string  // -> tag of first occurrence
-	Edits   map[[3]int]bool  // (startByte, endByte, cursorByte)
-	EditF   map[string]bool  // filenames of edit ranges
-	Hovers  map[[3]int]bool
-	HovBad  int // ok hover with empty content
-	Stops   map[string][]int
+	Kind     string
+	N        int
+	Hist     map[string]int
+	Panics   map[string]Event // site|class -> first example
+	Ranges   map[rkey]string  // -> tag of first occurrence
+	Edits    map[[3]int]bool  // (startByte, endByte, cursorByte)
+	EditF    map[string]bool  // filenames of edit ranges
+	Hovers   map[[3]int]bool
+	HovBad   int // ok hover with empty content
+	Stops    map[string][]int
 	PlainBad int
-	MaxLen  int
+	MaxLen   int
 	// completeness bookkeeping
 	Example map[string]string
 }
@@ -164,7 +164,9 @@ func (a *Agg) Event(path, file string) Event {
 	for _, p := range a.Panics {
 		ps = append(ps, p)
 	}
-	sort.Slice(ps, func(i, j int) bool { return fmt.Sprint(ps[i]["site"], ps[i]["class"]) < fmt.Sprint(ps[j]["site"], ps[j]["class"]) })
+	sort.Slice(ps, func(i, j int) bool {
+		return fmt.Sprint(ps[i]["site"], ps[i]["class"]) < fmt.Sprint(ps[j]["site"], ps[j]["class"])
+	})
 	ev["panics"] = ps
 	rs := make([][]interface{}, 0, len(a.Ranges))
 	for k, tag := range a.Ranges {
@@ -243,7 +245,7 @@ func isPositional(k string) bool {
 
 type sessOpts struct {
 	Stale     bool // also query between Load and Collect (stale targets / origins)
-	FpEvery   int // fingerprint after every Q event of every n-th state (0 = never)
+	FpEvery   int  // fingerprint after every Q event of every n-th state (0 = never)
 	Prefill   bool
 	AllKinds  bool
 	TokensObs bool // log token sequences and symbol trees (shape parts of C13/C14)
